@@ -150,6 +150,14 @@ def _limit_memory():
     resource.setrlimit(resource.RLIMIT_AS, (lim, lim))
 
 
+def _kill_session(pgid):
+    import signal
+    try:
+        os.killpg(pgid, signal.SIGKILL)
+    except (ProcessLookupError, PermissionError):
+        pass
+
+
 def run_harnesses(wc, harnesses, outdir, jobs=8, extra_env=None, solver_cli=None, extra_args=None, tag="main"):
     """Run the given harness specs in working copy `wc` with ONE cargo-kani invocation
     (`-j`, terse output, per-harness timeout).  Returns {harness path: result-dict}."""
@@ -173,13 +181,23 @@ def run_harnesses(wc, harnesses, outdir, jobs=8, extra_env=None, solver_cli=None
         cmd += ["--harness", h["path"]]
     t0 = time.time()
     rounds = (len(harnesses) + jobs - 1) // jobs
+    # own session + private TMPDIR: solver grandchildren (cbmc spawns `cvc5` through a shell) survive
+    # Kani's per-harness timeout; they and their /tmp files are removed when the invocation ends
+    tmpdir = os.path.join(wc, "tmp-%s" % tag)
+    os.makedirs(tmpdir, exist_ok=True)
+    env["TMPDIR"] = tmpdir
+    p = subprocess.Popen(cmd, cwd=wc, env=env, stdout=subprocess.PIPE, stderr=subprocess.PIPE, text=True,
+                         preexec_fn=_limit_memory, start_new_session=True)
     try:
-        p = subprocess.run(cmd, cwd=wc, env=env, capture_output=True, text=True,
-                           timeout=timeout * rounds + 900, preexec_fn=_limit_memory)
-        out = p.stdout + "\n" + p.stderr
-    except subprocess.TimeoutExpired as e:
-        so = e.stdout.decode() if isinstance(e.stdout, bytes) else (e.stdout or "")
-        out = so + "\n[verif] cargo kani invocation timed out\n"
+        so, se = p.communicate(timeout=timeout * rounds + 900)
+        out = so + "\n" + se
+    except subprocess.TimeoutExpired:
+        _kill_session(p.pid)
+        so, se = p.communicate()
+        out = (so or "") + "\n[verif] cargo kani invocation timed out\n"
+    finally:
+        _kill_session(p.pid)
+        shutil.rmtree(tmpdir, ignore_errors=True)
     wall = time.time() - t0
     with open(os.path.join(outdir, "cargo-kani-%s.log" % tag), "w") as f:
         f.write(" ".join(cmd) + "\n" + out)
